@@ -10,6 +10,7 @@ import (
 	"path/filepath"
 	"sort"
 	"strings"
+	"time"
 
 	pb "github.com/ipfs/boxo/ipld/unixfs/pb"
 	"github.com/ipfs/go-cid"
@@ -61,8 +62,12 @@ func walkImported(st *Store, c cid.Cid, name, diskPath string) (RTree, error) {
 		if err != nil {
 			return r, err
 		}
-		disk, _ := os.ReadFile(diskPath)
-		r.Kind, r.Size, r.Eq = "file", len(fw.Content), bytes.Equal(fw.Content, disk)
+		r.Kind, r.Size, r.Eq = "file", len(fw.Content), false
+		// only a regular file is read back (reading a fifo would block for ever)
+		if fi, err := os.Lstat(diskPath); err == nil && fi.Mode().IsRegular() {
+			disk, _ := os.ReadFile(diskPath)
+			r.Eq = bytes.Equal(fw.Content, disk)
+		}
 		return r, nil
 	}
 	b, ok := st.Get(c)
@@ -79,8 +84,12 @@ func walkImported(st *Store, c cid.Cid, name, diskPath string) (RTree, error) {
 		if err != nil {
 			return r, err
 		}
-		disk, _ := os.ReadFile(diskPath)
-		r.Kind, r.Size, r.Eq = "file", len(fw.Content), bytes.Equal(fw.Content, disk)
+		r.Kind, r.Size, r.Eq = "file", len(fw.Content), false
+		// only a regular file is read back (reading a fifo would block for ever)
+		if fi, err := os.Lstat(diskPath); err == nil && fi.Mode().IsRegular() {
+			disk, _ := os.ReadFile(diskPath)
+			r.Eq = bytes.Equal(fw.Content, disk)
+		}
 	case pb.Data_Symlink:
 		r.Kind, r.Target = "symlink", string(d.Data)
 	case pb.Data_Directory:
@@ -172,8 +181,12 @@ func runImportCase(ic *ImportCase, tr *Tr) error {
 	ls := st.LinkSystem()
 	var lnk ipld.Link
 	var berr error
-	if pm := guard(func() { lnk, _, berr = builder.BuildUnixFSRecursive(filepath.Join(d, tree.Name), ls) }); pm != nil {
-		berr = pm
+	var l0 ipld.Link
+	var e0 error
+	if pm := guardTimed(time.Minute, func() { l0, _, e0 = builder.BuildUnixFSRecursive(filepath.Join(d, tree.Name), ls) }); pm != nil {
+		berr = pm // a panic, or the importer never returned (its goroutine may still be running: only pm is looked at)
+	} else {
+		lnk, berr = l0, e0
 	}
 	tr.Emit(M{"ev": "reset", "case": caseString(ic)})
 	in := specToRTree(tree)
@@ -253,7 +266,7 @@ func init() {
 		case "enum":
 			// every tree of depth <= 2 whose directories have <= 2 children out of 8 leaf kinds
 			// (depth-2 children are drawn from the leaf kinds and from depth-1 directories with one child)
-			names := []string{"a", "b ü"}
+			names := []string{"a", "a ü.b"} // the second name extends the first: "a" may be a directory next to "a ü.b"
 			var level1 []*TreeSpec
 			for k := 0; k < 8; k++ {
 				level1 = append(level1, leaf(k, ""))
